@@ -87,7 +87,8 @@ def library_panic(stderr):
 # Thorough tier: how much the seeded parts of each family's generator are multiplied (harness: tierInt * VERIF_DEPTH).
 # Calibrated on this 16-core sandbox so that a thorough run of a property takes roughly 5-10 minutes;
 # VERIF_DEPTH in the environment overrides it.
-DEPTH = {}
+DEPTH = {"C01": 8, "C02": 6, "C03": 6, "C04": 5, "C05": 300, "C06": 6, "C07": 1000, "C08": 4, "C09": 1, "C10": 16,
+         "C11": 8, "C12": 16, "C13": 16, "C14": 10, "C15": 12, "C16": 1, "C17": 2, "C18": 1000, "C19": 1, "C20": 1}
 
 
 class Ctx:
@@ -360,6 +361,13 @@ class Ctx:
                 return [out]
             return ["%s.%d" % (out, i) for i in range(shards)]
         files = []
+        if not infile:
+            # one case list for all parts (generators call randomised library code: two processes would not
+            # generate byte-identical lists, and case k of one list is not case k of another)
+            infile = os.path.join(self.scratch, "%s-%s.gen-cases.ndjson" % (family, tag))
+            self.harness(["gen", family, "-seed", str(self.seed), "-tier", self.tier] + (extra or []) + ["-out", infile],
+                         timeout=timeout, binary=binary, env=env)
+            base += ["-in", infile]
 
         def one(i):
             o = out if i == 0 else "%s.part%d" % (out, i)
